@@ -15,12 +15,16 @@ res = {}
 rp = os.path.join(V, 'seeded', 'RESULTS.json')
 if os.path.exists(rp):
     res = json.load(open(rp))
-seeded = ['| id | property | change | needs | caught by (first violated oracle) |', '|---|---|---|---|---|']
+fr = {}
+frp = os.path.join(V, 'seeded', 'FIRST_RUN.json')
+if os.path.exists(frp):
+    fr = json.load(open(frp))
+seeded = ['| id | property | change | needs | first run (monitor as it was when the change arrived) | now: caught by (first violated oracle) |', '|---|---|---|---|---|---|']
 for d in sorted(glob.glob(os.path.join(V, 'seeded', '*', 'meta.json'))):
     sid = os.path.basename(os.path.dirname(d))
     m = json.load(open(d))
     r = res.get(sid, {})
-    seeded.append('| %s | %s | %s | %s | %s |' % (sid, m.get('property'), esc(m.get('summary', ''))[:260], esc(m.get('needs', ''))[:220], esc(r.get('caught_by', 'not run yet'))))
+    seeded.append('| %s | %s | %s | %s | %s | %s |' % (sid, m.get('property'), esc(m.get('summary', ''))[:260], esc(m.get('needs', ''))[:220], fr.get(sid, '?'), esc(r.get('caught_by', 'not run yet'))))
 muts = json.load(open(os.path.join(V, 'selftest', 'mutants.json')))
 bym = {}
 for m in muts:
